@@ -15,10 +15,11 @@ CONSTANTS
  Tries = 2
  NextHop = 4 Unstable = 24 CacheTO = 4 Inactive = 8 RemoveDelay = 2 SweepEvery = 2 PingEvery = 3 MaxTime = 1000
  CreateGuard = TRUE
- MaxCircuits = 2 MaxData = 1 MaxLoss = 0 MaxDup = 0 MaxAdv = 1 MaxNow = 0
+ MaxCircuits = 2 MaxData = 1 MaxLoss = 1 MaxDup = 0 MaxAdv = 1 MaxNow = 0
  Goals = {1}
  Origins = {o, o2}
  AdvKinds = {"create", "destroy"}
+ NodeRank <- RankDef
  AdvSrcs = {adv}
  TrackWire = FALSE
  UseIds = FALSE
